@@ -214,15 +214,26 @@ def shard(sh: Shard, seed, wseed, regime, nhist, nev):
                 judge_queue(sh, rig, "B", 0, "handshake", final=False)
                 await rig.quiesce()
                 w.set_regime(regime)
+                if hi % 3 == 1:
+                    # a client whose event handler really suspends (for up to five polling intervals)
+                    rig.event_delay = lambda ev: r.choice([None, 0, 0.25, 0.5])
+                    sh.count("histories_with_suspending_client_handler")
                 e0, d0, ev0 = len(rig.protocol.queue.events), len(w.net.dgrams), len(rig.events)
                 exp_acks, exp_rferr = await history(sh, rig, r, regime, nev)
                 n = judge_queue(sh, rig, regime, e0, f"{seed}:{wseed}:{hi}")
                 acks = [d for d in w.net.dgrams[d0:] if d.dir == "c2s" and d.verb == "STATQ"]
                 rf = [e for e in rig.events[ev0:] if e[0] == GeckoSpaEvent.ERROR_RF_ERROR]
-                if len(acks) != exp_acks:
-                    sh.violation("C07:statp-effect-count", f"{exp_acks} addressed partial updates injected, {len(acks)} acknowledgements sent (handled not exactly once)", {"regime": regime})
-                if len(rf) != exp_rferr:
-                    sh.violation("C07:rferr-effect-count", f"{exp_rferr} addressed RFERR injected, {len(rf)} RF-error events raised", {"regime": regime})
+                # effects are exactly-once per *consumption*: a datagram whose consumer was busy (a
+                # suspended client handler) may legitimately be discarded as unhandled instead
+                q = rig.protocol.queue
+                taken_statp = sum(1 for ev in q.events[e0:] if ev[0] == "pop" and ev[3] and ev[3].startswith(b"STATP") and ev[4] == "GeckoAsyncPartialStatusBlockProtocolHandler")
+                taken_rferr = sum(1 for ev in q.events[e0:] if ev[0] == "pop" and ev[3] and ev[3].startswith(b"RFERR") and ev[4] == "GeckoRFErrProtocolHandler")
+                if len(acks) != taken_statp or taken_statp > exp_acks:
+                    sh.violation("C07:statp-effect-count", f"{exp_acks} addressed partial updates injected, {taken_statp} taken by the partial-update consumer, {len(acks)} acknowledgements sent (handled not exactly once)", {"regime": regime})
+                if len(rf) != taken_rferr or taken_rferr > exp_rferr:
+                    sh.violation("C07:rferr-effect-count", f"{exp_rferr} addressed RFERR injected, {taken_rferr} taken by the RFERR consumer, {len(rf)} RF-error events raised", {"regime": regime})
+                if rig.event_delay is None and (taken_statp != exp_acks or taken_rferr != exp_rferr) and regime in ("B", "J"):
+                    sh.violation("C07:addressed-not-consumed", f"with idle consumers {exp_acks - taken_statp} partial update(s) / {exp_rferr - taken_rferr} RFERR addressed to this connection were not taken by their consumer", {"regime": regime})
                 sh.count("datagrams_through_queue", n)
                 # consumer tasks must all be alive at the end of a history of well-formed traffic
                 dead = [t.get_name() for t in rig.taskman._tasks if t.done() and t.get_name().startswith("SPA:") and t.get_name() not in ("SPA:Ping loop", "SPA:Refresh loop")]
@@ -260,6 +271,7 @@ def main(tier, seed):
     for v in ("ip", "port", "src-id", "dst-id", "both-ids-swapped"):
         run.need(f"misaddressed:{v}" in kinds, f"mis-addressed variant {v} not exercised")
     run.need(run.counters.get("unhandled_discards", 0) > 50 and run.counters.get("claimed_pops", 0) > 200, "too few pops observed")
+    run.need(run.counters.get("histories_with_suspending_client_handler", 0) > 5, "no history with a suspending client handler")
     return run.finish(
         rule="arrival histories on a real connected client mixing addressed partial updates, RFERR, WCERR, replies without a waiter, unknown verbs, unframed garbage, broken frames, nested frames, hello, five kinds of mis-addressed packets and bursts, with 0-2 waiters active, under regimes B/J/H and exact timer ties (T); one evaluation = one datagram that went through the receive queue (or one mis-addressed probe); distinct = distinct histories",
         assumptions=["'discarded as unhandled' is read as: popped by the unhandled consumer after the datagram stayed at the head for at least one polling interval", "head-residence bound 3 polls + injected lateness/stalls, judged under regimes B and J only", "malformed payloads of known verbs are not part of the workload (they end the consumer task; noted in DESIGN.md)"],
